@@ -1655,6 +1655,25 @@ fn gen_channel(r: &mut Rng) -> ChanCase {
 
 // ------------------------------------------------------------------ generators
 const CODES_MSGS: &[&str] = &["", "x", "not found", "a%b c", "é", "bad \"thing\"", "50% off\n"];
+/// status messages over every combination of character classes (a fast path keyed on "is ASCII",
+/// "has no %", "is printable" ... is only wrong for some combinations): controls incl. NUL, LF, CR,
+/// ESC, DEL and TAB; space; printable ASCII; the percent sign; quotes and other encode-set
+/// members; 2/3/4-byte UTF-8
+fn gen_status_message(r: &mut Rng) -> String {
+    const CLASSES: &[&[char]] = &[
+        &['\n', '\r', '\0', '\x1b', '\x7f', '\x01', '\x1f'],
+        &['\t'],
+        &[' '],
+        &['a', 'Z', '0', '-', '_', '.', '~', ',', ':', '/'],
+        &['%'],
+        &['"', '#', '<', '>', '?', '`', '{', '}'],
+        &['é', 'ß', '€', '漢', '😀', '\u{10ffff}'],
+    ];
+    let mask = r.range(1, (1 << CLASSES.len()) - 1) as usize;
+    let pool: Vec<char> = CLASSES.iter().enumerate().filter(|(i, _)| mask >> i & 1 == 1).flat_map(|(_, c)| c.iter().copied()).collect();
+    let n = r.range(1, 12) as usize;
+    (0..n).map(|_| *r.pick(&pool)).collect()
+}
 fn gen_status(r: &mut Rng) -> StSpec {
     let mut md = vec![];
     for _ in 0..(if r.chance(1, 3) { r.range(1, 2) } else { 0 }) {
@@ -1668,7 +1687,7 @@ fn gen_status(r: &mut Rng) -> StSpec {
     }
     StSpec {
         code: r.range(1, 16) as u32,
-        msg: r.pick(CODES_MSGS).to_string(),
+        msg: if r.chance(1, 3) { r.pick(CODES_MSGS).to_string() } else { gen_status_message(r) },
         details: if r.chance(1, 4) { let n = r.range(1, 5) as usize; r.bytes(n) } else { vec![] },
         md,
     }
